@@ -163,7 +163,7 @@ Theorem kill_chain_order last s o : 2 <= last < NOT_STARTED -> kwf last s -> (k_
   kmove last (k_cur s) (k_cur (k_step last s o)) /\ (o <> KFail -> k_cur s <> FAILED -> kwf last (k_step last s o)).
 Proof.
   intros Hl W HF. destruct s as [c nx d].
-  destruct o as [| | |rep]; unfold kwf, kmove, k_step, NOT_STARTED, SUCCEEDED, FAILED in *; cbn in *.
+  destruct o as [| | |rep|ok rs]; unfold kwf, kmove, k_step, NOT_STARTED, SUCCEEDED, FAILED in *; cbn in *.
   - clear HF. destruct (c =? 100) eqn:E; cbn; split; try lia; intros; lia.
   - assert (c <> 300 /\ c <> 200) by (split; intro; apply HF; auto). clear HF.
     destruct (nx =? last) eqn:E; cbn; [split; try lia; intros; lia|].
@@ -171,4 +171,12 @@ Proof.
   - clear HF. split; try lia; intros H; congruence.
   - clear HF. destruct ((c =? 200) || (c =? 300)) eqn:E; cbn; [|split; try lia; intros; lia].
     destruct d; cbn; [split; try lia; intros; lia|]. destruct rep; cbn; split; try lia; intros; lia.
+  - clear HF. destruct (ok || rs) eqn:E; cbn; split; try lia; intros; lia.
 Qed.
+
+(* a response other than "success" never lets the chain advance: the stage is held (stages repeated) or the chain fails *)
+Theorem unsuccessful_response_never_advances last s rs :
+  k_cur (k_step last s (KReturn false rs)) = (if rs then k_cur s else FAILED) /\
+  k_next (k_step last s (KReturn false rs)) = k_next s /\
+  k_step last s (KReturn true rs) = s.
+Proof. destruct rs; cbn; auto. Qed.
